@@ -16,14 +16,17 @@ job() {
   k=$1; shift
   while read patch props; do
     wt=/tmp/st/w$k
-    git -C $wt checkout -q -- . ; git -C $wt clean -qfd maltoolbox 2>/dev/null
-    if ! git -C $wt apply "$(pwd)/$patch" 2>/dev/null; then for p in $props; do echo "NOAPPLY $p  $patch"; done; continue; fi
+    git -C $wt reset -q --hard HEAD; git -C $wt clean -qfd maltoolbox 2>/dev/null
+    if ! git -C $wt apply "$(pwd)/$patch" 2>/dev/null; then
+      # patches confirmed on an earlier HEAD: three-way merge (as tools/try_mutant.sh does)
+      if git -C $wt apply --3way "$(pwd)/$patch" 2>/dev/null; then git -C $wt reset -q; else git -C $wt reset -q --hard HEAD; for p in $props; do echo "NOAPPLY $p  $patch"; done; continue; fi
+    fi
     for p in $props; do
       out=$(MTV_REPO=$wt ./check $p --tier quick --no-evidence 2>&1); rc=$?
       key=$(echo "$out" | grep -m1 "key=" | sed 's/ *key=//')
       if [ $rc -eq 1 ]; then echo "KILLED  $p  $patch  [$key]"; else echo "MISSED  $p  $patch  rc=$rc $(echo "$out" | grep -m1 INCONCL | cut -c1-120)"; fi
     done
-    git -C $wt checkout -q -- . ; git -C $wt clean -qfd maltoolbox 2>/dev/null
+    git -C $wt reset -q --hard HEAD; git -C $wt clean -qfd maltoolbox 2>/dev/null
   done
 }
 for k in $(seq 1 $W); do
